@@ -2,6 +2,7 @@ package checks
 
 import (
 	"os"
+	"time"
 	"fmt"
 	"sort"
 	"strings"
@@ -48,3 +49,5 @@ func min(a, b int) int {
 	}
 	return b
 }
+
+func timeUnix(s int64) time.Time { return time.Unix(s, 0) }
